@@ -2,6 +2,7 @@ import Tmv.Drv.Core
 import Tmv.Model.MConn
 import Tmv.Model.PeerMsgs
 import Tmv.Model.PeerState
+import Tmv.Model.ReactorMsgs
 namespace Tmv.Drv.C17
 open Tmv Tmv.MConn
 
@@ -20,6 +21,7 @@ structure St where
   reactor : Bool := false
   consensus : Bool := false
   prs : PeerState.PRS := {}
+  pexMarker : Nat := 0
 
 /-- one `sendPacketMsg` whose packet is handed to the receive loop; `false` = nothing pending -/
 def pairStep (p : Pair) : Pair × Bool :=
@@ -215,6 +217,32 @@ def gossipModel (p : PeerState.PRS) (what : String) : Option PeerState.PRS :=
           then PeerState.pickSendVote q v (some 0) else none) acc) (some p)
   | _ => some p
 
+
+/-- verdicts of the other reactors' modelled message kinds; the second component is the new pex
+request marker -/
+def otherVerdict (kind : String) (toks : List String) (pexMarker : Nat) : Option (String × Nat) := do
+  let int (k : String) : Option Int := (kv toks k).bind String.toInt?
+  let nat (k : String) : Option Nat := (kv toks k).bind String.toNat?
+  match kind with
+  | "mp-txs" => pure ("ok", pexMarker)
+  | "bc-blockrequest" => pure (verdict (ReactorMsgs.BcMsg.blockRequest (← int "h")).valid, pexMarker)
+  | "bc-noblockresponse" => pure (verdict (ReactorMsgs.BcMsg.noBlockResponse (← int "h")).valid, pexMarker)
+  | "bc-statusresponse" => pure (verdict (ReactorMsgs.BcMsg.statusResponse (← int "base") (← int "h")).valid, pexMarker)
+  | "bc-statusrequest" => pure ("ok", pexMarker)
+  | "ss-chunkrequest" => pure (verdict (ReactorMsgs.SsMsg.chunkRequest (← nat "h")).valid, pexMarker)
+  | "ss-chunkresponse" =>
+    pure (verdict (ReactorMsgs.SsMsg.chunkResponse (← nat "h") (← parseBool (← kv toks "missing")) (← nat "chunklen")).valid, pexMarker)
+  | "ss-snapshotsrequest" => pure ("ok", pexMarker)
+  | "ss-snapshotsresponse" =>
+    pure (verdict (ReactorMsgs.SsMsg.snapshotsResponse (← nat "h") (← nat "hashlen") (← nat "chunks")).valid, pexMarker)
+  | "pex-request" =>
+    let (m, ok) := ReactorMsgs.pexReceiveRequest pexMarker
+    pure (verdict ok, m)
+  | "pex-addrs" =>
+    -- the harness node never asked this peer for addresses
+    pure (verdict (ReactorMsgs.pexAddrsAccepted false (← parseBool (← kv toks "wellformed"))), pexMarker)
+  | _ => none
+
 def step (st : St) (toks : List String) : St × String :=
   match toks with
   | "sconn" :: rest =>
@@ -286,13 +314,18 @@ def step (st : St) (toks : List String) : St × String :=
     match kv rest "kind" with
     | some k =>
       if ["consensus", "mempool", "evidence", "blockchain", "statesync", "pex"].contains k
-      then ({ st with reactor := true, consensus := k == "consensus", prs := {} }, "ok") else (st, "bad-op")
+      then ({ st with reactor := true, consensus := k == "consensus", prs := {}, pexMarker := 0 }, "ok") else (st, "bad-op")
     | none => (st, "bad-op")
   | "rmsg" :: rest =>
     if ¬ st.reactor then (st, "bad-op") else
     match kv rest "kind", kv rest "expect" with
     | some k, some e =>
-      if ¬ st.consensus then (st, e) else
+      if ¬ st.consensus then
+        if k.startsWith "opaque" then (st, e) else
+        match otherVerdict k rest st.pexMarker with
+        | some (v, m) => ({ st with pexMarker := m }, v)
+        | none => (st, "bad-op")
+      else
       let v? : Option String :=
         if ["newroundstep", "newvalidblock", "proposalpol", "hasvote", "votesetbits"].contains k
         then modelledVerdict k rest else some e
